@@ -659,7 +659,16 @@ func (c *codegen) convertFuncDecl(file ast.Node, decl *ast.FuncDecl, pkg *types.
 
 	f.rng.End = uint16(c.prog.Len() - 1)
 
-	for _, f := range c.lambda {
+	// Function literals are emitted in the order they were met, so that the
+	// result doesn't depend on the map iteration order.
+	lambdas := make([]*lambdaScope, 0, len(c.lambda))
+	for _, l := range c.lambda {
+		if !l.compiled {
+			lambdas = append(lambdas, l)
+		}
+	}
+	slices.SortFunc(lambdas, func(a, b *lambdaScope) int { return cmp.Compare(a.label, b.label) })
+	for _, f := range lambdas {
 		if f.compiled {
 			continue
 		}
